@@ -96,6 +96,10 @@ def gen_param_value(r: random.Random, sch: dict, loc: str):
         v = r.choice(SAFE_PATH_STR)
     elif loc == "header":
         v = r.choice(["abc", "x y", "tok-123", "v=1; q", "Zz"])
+    elif loc == "cookie":
+        # what a Cookie header can carry (RFC 6265 cookie-octets: ASCII without whitespace, quote, comma, semicolon, backslash);
+        # httpx cannot encode anything else into the header
+        v = r.choice(["abc", "tok-123", "a&b=c", "100%", "", "q?", "Zz"])
     else:
         v = r.choice(["abc", "x y", "a&b=c", "é", "100%", "", "q?"])
     return {"k": "json", "v": v}, [v]
